@@ -34,6 +34,10 @@ EXPLANATION = (
     "compiler invents (no user-chosen part) for the variables of a generated edge operator — whose namespace also holds the "
     "user's source and target variable names — is reserved by check_vname; check_vname is applied to every declared variable and "
     "raises for its two tables (read by structure).  "
+    "R4 the constant character collection(s) that the membership tests of parser.replace read (a local string, a module-level "
+    "constant, set(...)/frozenset(...) of characters, also inside a private helper the scanner calls) contain every operator "
+    "character of the equation grammar, and var_in_expression reads the same set.  "
+    "R5 a constant right-hand side is inlined with a round-trip-exact literal.  "
     "NOT decided: values; names that collide only through equality of two user-chosen names (source variable named like the "
     "target variable of one edge); collisions inside generated operators between two user-derived templates."
 )
